@@ -118,6 +118,14 @@ func instrument(fd *ast.FuncDecl, t target) []string {
 					callee = stepOf(x.Init, t.Steps) // `if err := step(); err != nil { return }`
 				}
 			}
+			if rs, ok := s.(*ast.ReturnStmt); ok && t.Pre {
+				// `return step()`: only a point in front of it
+				if c := stepOf(rs, t.Steps); c != "" {
+					name := fmt.Sprintf("%s:pre%d:%s", t.Func, k+1, c)
+					names = append(names, name)
+					out = append(out, point(name))
+				}
+			}
 			if callee != "" && t.Pre {
 				name := fmt.Sprintf("%s:pre%d:%s", t.Func, k+1, callee)
 				names = append(names, name)
